@@ -77,7 +77,13 @@ class Inserter:
                 if hasattr(n, f):
                     setattr(m, f, self.go(getattr(n, f), in_lambda or isinstance(n, ast.Lambda)))
             if self.is_seq(m) and self.n < 8 and self.r.random() < self.p:
-                return self.wrap(m, in_lambda)
+                m = self.wrap(m, in_lambda)
+                if self.r.random() < 0.15:
+                    # the wrapped sequence as one of several ** / * arguments of a plain call
+                    self.multi_star = getattr(self, "multi_star", 0) + 1
+                    return ast.Call(func=N("plain"), args=[ast.Starred(value=N("pa"), ctx=ast.Load()), ast.Starred(value=m, ctx=ast.Load())],
+                                    keywords=[ast.keyword(arg=None, value=N("kw1")), ast.keyword(arg="k", value=C(1)), ast.keyword(arg=None, value=N("kw2"))])
+                return m
             return m
         if isinstance(n, list):
             return [self.go(x, in_lambda) for x in n]
@@ -108,6 +114,15 @@ def canon(d):
 
 def judge(ctx, q, stats, info):
     from func_adl.ast.meta_data import extract_metadata, remove_empty_metadata
+
+    if ctx.rnd.random() < 0.1:
+        # a call that fails part-way (a wrapper whose second argument is not a literal) must leave nothing behind
+        bad = astx.parse_expr("MetaData(Select(MetaData(jets, not_a_literal), lambda j: j), {'stale': 'entry'})")
+        for fn in (extract_metadata, remove_empty_metadata):
+            try:
+                fn(astx.clone(bad))
+            except Exception:
+                ctx.count("failing-calls-in-between")
 
     key = astx.dump_fields(q)
     witness = {"query": astx.unparse(q), "info": info}
@@ -167,6 +182,9 @@ def judge(ctx, q, stats, info):
 
 
 DIRECTED = [
+    "Select(EventDataset(), lambda e: calib(e.x, **MetaData(e.defaults, {'t': 1}), **e.overrides))",
+    "f(MetaData(a, {}), **b, **MetaData(c, {'t': 2}), **d)",
+    "Select(MetaData(EventDataset(), {'t': 5}), lambda e: g(*e.a, *MetaData(e.b, {}), k=1, **e.c, **e.d))",
     "MetaData(MetaData(EventDataset(), {}), {'t': 1})",
     "Select(MetaData(EventDataset(), {}), lambda e: MetaData(e.jets, {}).Select(lambda j: j.pt))",
     "MetaData(Select(MetaData(MetaData(EventDataset(), {'t': 1}), {}), lambda e: Count(MetaData(MetaData(e.jets, {'t': 2}), {'t': 3}))), {'t': 4})",
